@@ -362,11 +362,15 @@ func TestVerifC03Seq(t *testing.T) {
 	nScn := 0
 	// the searches are level-synchronous and most frontiers are small, so several scenarios run side by side;
 	// results are merged in scenario order, which keeps counts and counterexamples deterministic
+	// Two passes: first every scenario at a shallow depth (a few percent of the cost), then every scenario at
+	// its full depth, families interleaved. If the deadline arrives during the second pass, the scenarios it
+	// did not finish are reported with their shallow search (and a cap), instead of not at all. Histories
+	// validated in the first pass are not audited twice (c03Validated).
 	type job struct {
-		scn   *c03Scn
-		depth int
-		st    *seqmc.Stats
-		secs  float64
+		scn            *c03Scn
+		depth, shallow int
+		a, b           *seqmc.Stats
+		secs           float64
 	}
 	var jobs []*job
 	for _, scn := range scns {
@@ -383,7 +387,14 @@ func TestVerifC03Seq(t *testing.T) {
 		if f := os.Getenv("C03_ONLY"); f != "" && f != scn.family && f != scn.name {
 			continue
 		}
-		jobs = append(jobs, &job{scn: scn, depth: d})
+		sh := d - 2
+		if thorough {
+			sh = d - 3
+		}
+		if sh < 2 {
+			sh = 2
+		}
+		jobs = append(jobs, &job{scn: scn, depth: d, shallow: sh})
 	}
 	debug.SetGCPercent(400)
 	debug.SetMemoryLimit(5 << 30) // soft limit: collect harder instead of growing towards the worker's ulimit
@@ -392,40 +403,88 @@ func TestVerifC03Seq(t *testing.T) {
 	if per < 1 {
 		per = 1
 	}
-	var wg sync.WaitGroup
-	next := make(chan *job, len(jobs))
-	for _, j := range jobs {
-		next <- j
-	}
-	close(next)
-	for w := 0; w < par; w++ {
-		wg.Add(1)
-		go func() {
-			defer wg.Done()
-			for j := range next {
-				if !time.Now().Before(vrep.Deadline()) {
-					continue // reported below as a cap
+	runPass := func(order []*job, second bool) {
+		var wg sync.WaitGroup
+		next := make(chan *job, len(order))
+		for _, j := range order {
+			next <- j
+		}
+		close(next)
+		for w := 0; w < par; w++ {
+			wg.Add(1)
+			go func() {
+				defer wg.Done()
+				for j := range next {
+					if !time.Now().Before(vrep.Deadline()) {
+						continue // reported below as a cap
+					}
+					t0 := time.Now()
+					d := j.shallow
+					if second {
+						d = j.depth
+					}
+					sp := c03Spec(t, j.scn, d)
+					sp.Workers = per
+					st := seqmc.Run(sp)
+					if second {
+						j.b = st
+					} else {
+						j.a = st
+					}
+					j.secs += time.Since(t0).Seconds()
 				}
-				t0 := time.Now()
-				sp := c03Spec(t, j.scn, j.depth)
-				sp.Workers = per
-				j.st = seqmc.Run(sp)
-				j.secs = time.Since(t0).Seconds()
-			}
-		}()
+			}()
+		}
+		wg.Wait()
 	}
-	wg.Wait()
+	runPass(jobs, false)
+	// second pass: round-robin over the families
+	var order []*job
+	byFam := map[string][]*job{}
+	var fams []string
 	for _, j := range jobs {
-		if j.st == nil {
-			r.Cap("deadline reached before scenario %s", j.scn.name)
-			continue
+		if _, ok := byFam[j.scn.family]; !ok {
+			fams = append(fams, j.scn.family)
+		}
+		byFam[j.scn.family] = append(byFam[j.scn.family], j)
+	}
+	for i := 0; len(order) < len(jobs); i++ {
+		for _, f := range fams {
+			if i < len(byFam[f]) {
+				order = append(order, byFam[f][i])
+			}
+		}
+	}
+	runPass(order, true)
+	shallowOnly := 0
+	for _, j := range jobs {
+		st, d := j.b, j.depth
+		if st == nil || st.Capped != "" {
+			if j.a == nil {
+				r.Cap("deadline reached before scenario %s", j.scn.name)
+				continue
+			}
+			r.Cap("%s: deadline reached, explored to depth %d instead of %d", j.scn.name, j.shallow, j.depth)
+			if st != nil {
+				// keep what the unfinished deep search found
+				for _, v := range st.Violations {
+					if v.Key != "replay-divergence" {
+						r.Violate(v.Key, v.Desc, map[string]any{"search": j.scn.name, "history": v.History})
+					}
+				}
+			}
+			st, d = j.a, j.shallow
+			shallowOnly++
 		}
 		nScn++
-		seqmc.Fill(r, j.scn.name, j.st)
-		rows = append(rows, row{j.scn.name, j.depth, j.st.States, j.st.Transitions, j.st.Closed, j.secs})
-		if j.depth > depths[j.scn.family] {
-			depths[j.scn.family] = j.depth
+		seqmc.Fill(r, j.scn.name, st)
+		rows = append(rows, row{j.scn.name, d, st.States, st.Transitions, st.Closed, j.secs})
+		if d > depths[j.scn.family] {
+			depths[j.scn.family] = d
 		}
+	}
+	if shallowOnly > 0 {
+		r.Bounds["scenarios_explored_only_to_the_shallow_depth"] = shallowOnly
 	}
 	r.Bounds["scenarios"] = nScn
 	r.Bounds["depth_by_family"] = depths
